@@ -4,7 +4,7 @@ Specification: spec/MacroProc.tla (machine side shaped like as.c / asmsub.c / as
 side ExpandDecl = the manual's textual substitution carried out by hand), program families spec/MacroProg.tla.
 
 (M) MacroProc_MC: every program of the nesting family (bodies  label? construct? statement?,  nesting <= 2 quick /
-    3 thorough, counts {0,2}, loops REPT/IRP/IRPC/WHILE (+IRPN, GLOBALSYMBOLS in the rich profile), macros with
+    3 thorough (87 k programs; the as-coded instance uses nesting 2 with the rich profile), counts {0,2}, loops REPT/IRP/IRPC/WHILE (+IRPN, GLOBALSYMBOLS in the rich profile), macros with
     0..2 parameters, default, empty and excess arguments) and of the focused families (binding shapes, SHIFT
     recursion, EXITM in IF, label privacy, INCLUDE nesting, adjacent \\a\\\\b\\ parameters) is run line by line;
     TLC checks  delivered = ExpandDecl(program), label privacy, balance of tag / symbol-space / IF stacks.
@@ -21,7 +21,13 @@ side ExpandDecl = the manual's textual substitution carried out by hand), progra
     a SPEC-DRIFT) and, when both are rejected, the error numbers.
 (V) MacroProc_Trace: for generated programs without a named deviation the `line` hook events of the real run (text
     delivered by GetNextLine, tag depth, exhausted flag; all passes) are validated event by event against the
-    machine operators.
+    machine operators (the whole machine, program text known).
+    MacroProc_CorpusTrace: for the golden tests (quick: the ~40 smaller ones that use constructs, thorough: 188 of
+    201, 304 k events) the program text is NOT given to the specification: lines from FILE tags are inputs, every
+    line handed out by a MACRO/IRP/IRPN/IRPC/REPT/WHILE tag must be what the collectors recorded and the processors
+    produce from it with the binding of ExpandMacro / ExpandIRP...; statement fields come from the `split` hook,
+    IfAsm / WasMACRO / recording flag / chain length from the `stmt` hook, REPT counts and WHILE conditions are
+    read off the events (nondeterminism of the operators).  A rejection there is reported as SPEC-DRIFT.
 Verdict-bearing: code-file equality of P and E for programs the manual gives a definite meaning (ExpandDecl.indef
 = FALSE), no crash.  A difference is a KNOWN finding only if a named deviation fired in the model AND the real
 asl behaves exactly as the as-coded model predicts (assembles like the model's delivered list / is rejected where
@@ -30,8 +36,9 @@ the model leaves raw parameter tokens / dies with SIGSEGV where the model derefe
 NOT covered: READ, FUNCTION, STRUCT expansion, section-local macros (PUBLIC/GLOBAL), EXPORT/-M output, listing
 control (C19), NESTMAX exhaustion, case-sensitive mode (-U), quoting of commas in arguments, macro use before
 definition (pass-dependent by the manual), ARGCOUNT with fewer arguments than formals and formals left without an
-argument by SHIFT (manual contradictory / silent: marked indef, not judged).  Corpus programs are not trace-
-validated against this model (their statements need expression values the `line` events do not carry).
+argument by SHIFT (manual contradictory / silent: marked indef, not judged).  Golden tests the corpus trace cannot
+follow: #define (text rewritten after the hook), macro-processor arguments containing commas, macro names built by
+{symbol} expansion (t_403, t_821) - 13 of 201, listed in the evidence.
 
 Mutations of /repo tried (scratch copies): see the end of this file (MUTATIONS).
 """
@@ -64,8 +71,10 @@ def _cfg(name, text):
 def mc_cfg(tier, fixed):
     if tier == "quick":
         c = "MaxD = 2 Cnts = {0, 2} NPre = 1 NPost = 1 Rich = FALSE Focus = TRUE"
+    elif fixed:
+        c = "MaxD = 3 Cnts = {0, 2} NPre = 1 NPost = 1 Rich = FALSE Focus = TRUE"       # 87 k programs
     else:
-        c = "MaxD = 3 Cnts = {0, 2} NPre = 1 NPost = 1 Rich = FALSE Focus = TRUE"
+        c = "MaxD = 2 Cnts = {0, 2} NPre = 1 NPost = 1 Rich = TRUE Focus = TRUE"        # 16 k programs
     inv = "Transparent Private Balanced NoDevWhenFixed TagsOK" if fixed else "TransparentUnlessDev Private Balanced TagsOK"
     return ("CONSTANTS Fixed = %s HasAttrs = FALSE MaxNum = 99\n          %s\nSPECIFICATION Spec\nINVARIANTS %s\n"
             "CHECK_DEADLOCK FALSE\n" % (FIXED_ALL if fixed else "{}", c, inv))
@@ -206,7 +215,7 @@ def main(tier):
 
     def run(t):
         name, mod, cfg = t
-        w = 3 if name.replace("gen_", "") in big else 1
+        w = (6 if (tier == "thorough" and name == "mc_fixed") else 3) if name.replace("gen_", "") in big else 1
         r = tlc.run(mod, cfg, workers=w, timeout=2400, mem="6g", tags=("OUT",), collect=name.startswith("gen_"))
         return name, r
     with Phase("TLC: 2 model checks + %d generator families" % len(fams)):
@@ -276,10 +285,67 @@ def main(tier):
             # files of P and E were equal (else reported above), so this is a drift of the model unless the
             # stream itself is wrong: report as drift, the replay is the verdict.
             rep.drift("program %s: %s" % (o["tag"], v.detail[:400]))
+    # ---- (V2) the golden tests: every line handed out by a MACRO/IRP/IRPN/IRPC/REPT/WHILE tag -------------------
+    if bld.hooks:
+        corpus_trace(rep, bld, tier)
     return rep.finish(
         rule="programs = all members of the TLC-enumerated families (see docstring); each definite program is "
              "rendered twice (P, and E = ExpandDecl(P) computed by TLC) and both are assembled by asl; distinct = "
              "distinct rendered P; every program contains at least one construct", exhaustive=False)
+
+
+# golden tests the corpus trace specification cannot follow, with the reason (found by analysing the rejection)
+CORPUS_UNSUPPORTED = {
+    "t_403": "macro names built by string-symbol expansion (mt{NAME} macro ...)",
+    "t_821": "macro names built by string-symbol expansion (mt{NAME} macro ...)",
+}
+CONSTRUCT_RX = r"(?im)^\S*\s+(macro|rept|irp|irpc|irpn|while)\b"
+
+
+def corpus_trace(rep, bld, tier):
+    import re
+    import shutil
+    from vlib.macrotrace import corpus_events
+    tests = []
+    for t in aslrun.corpus():
+        try:
+            with open(t[2], "rb") as f:
+                txt = f.read().decode("latin-1")
+        except OSError:
+            continue
+        if t[0] in CORPUS_UNSUPPORTED:
+            continue
+        if tier == "thorough" or re.search(CONSTRUCT_RX, txt):
+            tests.append(t)
+    if tier == "quick":
+        tests = [t for t in tests if os.path.getsize(t[2]) < 60000]
+
+    def one(t):
+        r = aslrun.assemble_corpus(bld, t, events="file,line,split,stmt")
+        shutil.rmtree(r.dir, ignore_errors=True)
+        return t[0], r
+    with Phase("record line/split/stmt events of %d golden tests" % len(tests)):
+        cr = pmap(one, tests)
+    execs, names, skipped = [], [], {}
+    for name, r in cr:
+        ev, why = corpus_events(r.trace)
+        if ev is None:
+            skipped[name] = why
+            continue
+        if any(e.get("depth", 1) > 1 for e in ev) or tier == "thorough":
+            execs.append(ev)
+            names.append(name)
+    with Phase("validate %d golden executions, %d events" % (len(execs), sum(len(x) for x in execs))):
+        v = tracecheck.validate("MacroProc_CorpusTrace", execs, timeout=1700, mem="8g")
+    rep.part("MacroProc_CorpusTrace", events=v.events, executions=v.executions, accepted=v.accepted, tests=names,
+             distinct_states=v.states, wall_s=v.wall, not_representable=skipped, unsupported=CORPUS_UNSUPPORTED)
+    rep.cov["states"] += v.states
+    rep.cov["transitions"] += v.generated
+    rep.traces(v.executions)
+    if not v.accepted:
+        # the stream of a golden program is not what the operators produce; the code files of the golden tests are
+        # C04's business and P = E is judged above: a drift of the specification (or an unmodelled feature)
+        rep.drift("golden test %s: %s" % (names[v.fail_exec], v.detail[:300]))
 
 
 def replay(path):
